@@ -108,10 +108,59 @@ static void maybeDerive(vh::Rng& g, Aut& A, RTA& a, CaseAlphabet& ca, std::strin
 	A.SetAlphabet(ca.alpha); a = readExpl(A, &ca); (void)kind; R->count(std::string("derived-subject:") + names[k]);
 }
 
+// ----------------------------------------------------------------- the same operations through the `vata` binary
+// (option parsing, loader, state-name dictionaries of the CLI, serializer) — every `cli_every`-th case
+static bool cliDue(uint64_t idx) { return idx % static_cast<uint64_t>(R->param("cli_every", 200)) == 0; }
+static bool cliRun(const std::string& prop, const std::string& what, const std::string& args, RTA& out)
+{
+	int rc = 0; R->phase("cli " + what); R->count("cli:" + what);
+	std::string txt = runVata(args, rc);
+	if (rc != 0) { R->violation(prop + "/cli/" + what + "/failed", "exit " + vh::str(rc) + ": " + txt.substr(0, 300)); return false; }
+	try { std::map<std::string, St> ids; out = fromDump(txt, ids); }
+	catch (std::exception& e) { R->violation(prop + "/cli/" + what + "/unparsable-output", std::string(e.what()) + "\n" + txt.substr(0, 300)); return false; }
+	return true;
+}
+static void cliPass(const std::string& prop, const Alpha& al, const RTA& a, const RTA* b)
+{
+	std::string fa = R->outdir + "/" + R->tag + ".A.txt", fb = R->outdir + "/" + R->tag + ".B.txt";
+	writeFile(fa, rm::toTimbuk(a, al, "A")); if (b) writeFile(fb, rm::toTimbuk(*b, al, "B"));
+	RTA r;
+	if (prop == "C02")
+	{
+		if (cliRun(prop, "union", "-r expl union " + fa + " " + fb, r) && rm::checkBin(a, *b, r, al, true) == 0) R->violation("C02/cli/union/language", "");
+		if (cliRun(prop, "isect", "-r expl isect " + fa + " " + fb, r) && rm::checkBin(a, *b, r, al, false) == 0) R->violation("C02/cli/isect/language", "");
+	}
+	else if (prop == "C03")
+	{
+		if (cliRun(prop, "load-s", "-r expl -s load " + fa, r)) { if (rm::cmpLang(a, r, al) > 0) R->violation("C03/cli/load-s/language", ""); std::set<St> u = rm::useful(r); for (St q : r.states()) if (!u.count(q)) { R->violation("C03/cli/load-s/dead-state", ""); break; } }
+		if (cliRun(prop, "load-p", "-r expl -p load " + fa, r)) { if (rm::cmpLang(a, r, al) > 0) R->violation("C03/cli/load-p/language", ""); std::set<St> rr = rm::reachableTD(r); for (St q : r.states()) if (!rr.count(q)) { R->violation("C03/cli/load-p/dead-state", ""); break; } }
+		if (cliRun(prop, "load", "-r expl load " + fa, r) && rm::cmpLang(a, r, al) > 0) R->violation("C03/cli/load/language", "");
+	}
+	else if (prop == "C05")
+	{
+		if (cliRun(prop, "red", "-r expl red " + fa, r)) { if (rm::cmpLang(a, r, al) > 0) R->violation("C05/cli/red/language", ""); if (r.states().size() > a.states().size() || r.rules.size() > a.rules.size()) R->violation("C05/cli/red/grew", ""); }
+	}
+	else if (prop == "C06")
+	{
+		if (cliRun(prop, "cmpl", "-r expl cmpl " + fa, r))
+		{
+			bool outside = false; for (auto& x : r.rules) if (x.sym < 0 || x.sym >= static_cast<int>(al.rank.size()) || al.rank[x.sym] != static_cast<int>(x.ch.size())) outside = true;
+			rm::Joint J = rm::jointReach({&a, &r}, al, 30000);
+			if (outside) R->violation("C06/cli/cmpl/symbol-outside-alphabet", "");
+			else if (!J.capped) for (auto& m : J.reach) if (J.acc(m, 0) == J.acc(m, 1)) { R->violation(std::string("C06/cli/cmpl/") + (J.acc(m, 0) ? "both-accept" : "neither-accepts"), ""); break; }
+		}
+	}
+	else if (prop == "C15")
+	{
+		if (cliRun(prop, "witness", "-r expl witness " + fa, r)) { int c = rm::cmpLang(r, a, al); if (c > 0 && (c & 1)) R->violation("C15/cli/witness/not-sublanguage", ""); if (c >= 0 && rm::refEmpty(a, al) == 0 && rm::refEmpty(r, al) == 1) R->violation("C15/cli/witness/empty-witness", ""); }
+	}
+}
+
 // ======================================================================= C03
 static void caseC03(uint64_t idx, vh::Rng& g)
 {
 	Alpha al; RTA a; std::string kind; genSingle(idx, g, al, a, kind, 6, 12);
+	if (cliDue(idx)) cliPass("C03", al, a, nullptr);
 	CaseAlphabet ca(al); Aut A = mkExpl(a, ca); maybeDerive(g, A, a, ca, kind);
 	R->desc(caseText(al, a)); R->count("gen:" + kind);
 	int rounds = g.chance(1, 4) ? 3 : 1;   // a quarter of the cases: the same object again after in-place modification
@@ -182,6 +231,7 @@ static void caseC15(uint64_t idx, vh::Rng& g)
 	}
 	else genSingle(idx, g, al, a, kind, 6, 12);
 	if (overrideInput(al, a, nullptr)) kind = "input-file";
+	if (cliDue(idx)) cliPass("C15", al, a, nullptr);
 	CaseAlphabet ca(al); Aut A = mkExpl(a, ca); maybeDerive(g, A, a, ca, kind);
 	R->desc(caseText(al, a)); R->count("gen:" + kind);
 	int rounds = g.chance(1, 4) ? 3 : 1;
@@ -247,6 +297,7 @@ static void caseC05(uint64_t idx, vh::Rng& g)
 		for (St s : a.states()) m[s] = tgt[i++];
 		a = rm::mapStates(a, m); kind += "+sparse";
 	}
+	if (cliDue(idx)) cliPass("C05", al, a, nullptr);
 	CaseAlphabet ca(al); Aut A = mkExpl(a, ca); maybeDerive(g, A, a, ca, kind);
 	R->desc(caseText(al, a)); R->count("gen:" + kind);
 	{	// non-trivial: the reference downward simulation equivalence has a class of size >= 2
@@ -297,6 +348,7 @@ static void caseC06(uint64_t idx, vh::Rng& g)
 		}
 	}
 	if (overrideInput(al, a, nullptr)) kind = "input-file";
+	if (cliDue(idx)) cliPass("C06", al, a, nullptr);
 	CaseAlphabet ca(al); Aut A = mkExpl(a, ca); maybeDerive(g, A, a, ca, kind);
 	R->desc(caseText(al, a)); R->count("gen:" + kind);
 	int rounds = g.chance(1, 4) ? 2 : 1;   // a quarter of the cases: the same object again after in-place modification
@@ -405,6 +457,7 @@ static void caseC02(uint64_t idx, vh::Rng& g)
 	}
 	else gen::genPair(g, 5, 9, al, a, b, kind);
 	if (overrideInput(al, a, &b)) kind = "input-file";
+	if (cliDue(idx)) cliPass("C02", al, a, &b);
 	CaseAlphabet ca(al); Aut A = mkExpl(a, ca), B = mkExpl(b, ca); maybeDerive(g, A, a, ca, kind); maybeDerive(g, B, b, ca, kind);
 	R->desc(caseText(al, a, &b)); R->count("gen:" + kind);
 	int rounds = g.chance(1, 5) ? 2 : 1;   // a fifth of the cases: the same operand objects again after one was modified in place
